@@ -620,12 +620,108 @@ func scenario(id string, seed uint64, sh shape, held bool, real string) runner.R
 	return res
 }
 
+// transientWriteFault: one transport write of the sender fails in passing (an expired write
+// deadline; none or some of its bytes accepted) and the transport works again afterwards, while the
+// sender carries on with its sends. Whatever the connection does about it, what the receiver obtains
+// must stay a prefix of what was submitted: a hole (a later message delivered after a lost one) is a violation.
+func transientWriteFault(id string, seed uint64) runner.Result {
+	r := &payload.SplitMix{S: seed}
+	manual := r.Intn(2) == 0
+	cfg := prog.GenConfig(r, manual)
+	if cfg.Net.Cap == 0 {
+		cfg.Net.Cap = -1
+	}
+	serverSends := r.Intn(3) == 0
+	s := &prog.Script{Tag: 1 + uint64(r.Intn(1000))}
+	var sender []prog.Act
+	nmsg := 4 + r.Intn(8)
+	for i := 0; i < nmsg; i++ {
+		sender = append(sender, prog.Act{Op: 's', Size: r.Intn(400)})
+		if manual && r.Intn(2) == 0 {
+			sender = append(sender, prog.Act{Op: 'f'})
+		}
+	}
+	if manual {
+		sender = append(sender, prog.Act{Op: 'f'})
+	}
+	if serverSends {
+		s.Client = []prog.Act{{Op: 's', Size: 5}, {Op: 'h'}, {Op: 'R'}}
+		s.Handler = append([]prog.Act{{Op: 'r'}}, sender...)
+	} else {
+		s.Client = append(sender, prog.Act{Op: 'h'}, prog.Act{Op: 'R'})
+		s.Handler = []prog.Act{{Op: 'R'}}
+	}
+	x := prog.New(cfg, []*prog.Script{s})
+	defer x.Rig.Teardown()
+	end := x.Rig.Pair.A
+	if serverSends {
+		end = x.Rig.Pair.B
+	}
+	kind := simnet.FaultWriteErrOnly
+	if r.Intn(2) == 0 {
+		kind = simnet.FaultWritePartialOnly
+	}
+	off := int64(30 + r.Intn(2500))
+	end.SetFault(simnet.Fault{Kind: kind, Offset: off, Temporary: r.Intn(4) != 0})
+	x.Start([][]*prog.Script{{s}})
+	st := x.WaitClients()
+	census.Quiesce(rig.Watchdog)
+	hist := fmt.Sprintf("%s | one write of the %s fails in passing (kind=%d at byte %d), sender goes on: %s", cfg.Desc, map[bool]string{false: "client", true: "server"}[serverSends], kind, off, describeScript(s))
+	if st == "watchdog" {
+		return runner.Inconcl(id, "watchdog: "+hist)
+	}
+	recvSide := byte('s')
+	if serverSends {
+		recvSide = 'c'
+	}
+	var got []uint32
+	var fails []string
+	for _, e := range x.Log(s.Tag).Snapshot() {
+		if e.Side != recvSide || e.Op != "recv" || !e.Returned || e.Err != nil {
+			continue
+		}
+		if e.MsgErr != nil {
+			fails = append(fails, fmt.Sprintf("a delivered message is damaged: %v", e.MsgErr))
+			continue
+		}
+		if serverSends && e.Msg.Dir != 1 || !serverSends && e.Msg.Dir != 0 {
+			continue
+		}
+		got = append(got, e.Msg.Seq)
+	}
+	first := uint32(0)
+	if !serverSends {
+		first = 0
+	}
+	for i, q := range got {
+		if q != first+uint32(i) {
+			fails = append(fails, fmt.Sprintf("the receiver obtained messages %v: not a prefix of the submitted sequence (message %d is missing before %d)", got, first+uint32(i), q))
+			break
+		}
+	}
+	if len(fails) > 0 {
+		return runner.Violation(id, "delivery:not-a-prefix-after-a-transient-write-failure", hist+"\n"+strings.Join(fails, "\n"))
+	}
+	res := runner.Hold(id, hist, end.FaultFired())
+	res.Events = int64(len(got))
+	return res
+}
+
+func describeScript(s *prog.Script) string {
+	return "client=[" + actsString(s.Client) + "] handler=[" + actsString(s.Handler) + "]"
+}
+
 func gen(tier string, seed uint64) []runner.Scenario {
 	n := 60
 	if tier == "thorough" {
 		n = 3000
 	}
 	var out []runner.Scenario
+	for i := 0; i < 2*n; i++ {
+		i := i
+		id := fmt.Sprintf("transient-write-fault/%d", i)
+		out = append(out, runner.Scenario{ID: id, Run: func() runner.Result { return transientWriteFault(id, payload.Hash(seed, 0xC01F, uint64(i))) }})
+	}
 	for i := 0; i < n; i++ {
 		for _, sh := range shapes {
 			i, sh := i, sh
